@@ -495,6 +495,18 @@ Definition mon_C14 (c : cfg) (tr : trace) : list failure :=
              | [st] => let exp := count_rpcs (fun r => started_server tr a r && negb (finished_server tr a r)) tr in
                        if Z.eqb (Z.of_N st) exp then [] else fl 1403 a exp (Z.of_N st)
              | _ => [] end)
+          else []) ++
+         (* against a raw tunnel server only an upper bound can be decided: an RPC whose caller has
+            been given a status as its terminal result (from a close frame, or from a violation the
+            client detected and answered by cancelling the stream) has no table entry any more (1404) *)
+         (if c_raws c && negb (c_rawc c) && negb after_td && negb ended then
+            match ctabs with
+            | [ct] =>
+                let got_status r := existsb (fun x => match x with (a', RStatus _ _ _, _, _, _, _, _, _, _) => a' <=? a | _ => false end)
+                                            (rets_of (Cr r) ORecv tr) in
+                let exp := count_rpcs (fun r => started_client tr a r && negb ((expect_fc c && finished_client tr a r) || got_status r)) tr in
+                if (exp <? ct)%Z then fl 1404 a exp ct else []
+            | _ => [] end
           else [])
      | _ => [] end) tr.
 
